@@ -73,7 +73,8 @@ FromBbanOutcome(e) ==
         fits == /\ key \in DOMAIN Table /\ IsUpper(cc[1]) /\ IsUpper(cc[2])
                 /\ Table[key].consistent /\ AllIn(b, IsAlnum) /\ FitsBban(b, Table[key])
     IN  IF fits
-        THEN IF e.out.k # "ok" THEN "rejected-but-valid"
+        \* with national validation requested a rejection is the national verdict (C06 judges that)
+        THEN IF e.out.k # "ok" THEN (IF e.vb /\ e.out.lib THEN "ok" ELSE "rejected-but-valid")
              ELSE IF e.out.val # FromBban(cc, b) THEN "wrong-check-digits"
              ELSE IF ~Valid(Table, e.out.val) THEN "accepted-but-invalid"
              ELSE IF DigitsVal(CheckDigitsOf(e.out.val)) \notin 2..98 THEN "check-digits-out-of-range"
